@@ -230,7 +230,9 @@ func genSubnetData(rng *rand.Rand, m *model, structMode bool) []byte {
 	return append(d, addr[:alen]...)
 }
 
-func optHex(code uint16, data []byte) OptSpec { return OptSpec{Code: code, Data: hex.EncodeToString(data)} }
+func optHex(code uint16, data []byte) OptSpec {
+	return OptSpec{Code: code, Data: hex.EncodeToString(data)}
+}
 
 // genOtherOpts: cookie, NSID request, padding, keepalive, unknown codes.
 func genOtherOpts(rng *rand.Rand) []OptSpec {
@@ -274,7 +276,7 @@ func genOtherOpts(rng *rand.Rand) []OptSpec {
 	return out
 }
 
-var ruleFields = []string{"", "", "sd0", "sd1", "sd8", "sm1", "sm4", "sm9", "sa0", "sa8", "sa24", "sa48", "sn", "sf16", "sf24"}
+var ruleFields = []string{"", "", "sd0", "sd1", "sd8", "sm1", "sm4", "sm9", "sa0", "sa8", "sa24", "sa48", "sn", "sf16", "sf24", "pn"}
 
 // genQuery builds a client query; ecsProb in percent.
 func genQuery(rng *rand.Rand, m *model, name string, entry string, ecsProb int) QSpec {
